@@ -221,11 +221,51 @@ func c12Share(c *Ctx) {
 		if f == nil {
 			continue
 		}
+		// the unit that holds the dedup logic: the emitter itself, or the one helper it delegates the interning to
+		emitter := f
+		canonInCaller := false
+		if len(f.FindCalls(core.ParseRefs("control.hashLpmSet"))) == 0 {
+			var helper *core.Func
+			var hcall *ast.CallExpr
+			core.EachCall(f.Body, core.Deep, func(call *ast.CallExpr) {
+				if cal := core.Callee(f.Info(), call); cal != nil {
+					if h := c.P.FuncOfObj(cal); h != nil && len(h.FindCalls(core.ParseRefs("control.hashLpmSet"))) > 0 && helper == nil {
+						helper, hcall = h, call
+					}
+				}
+			})
+			if helper != nil {
+				// canonicalisation may stay in the emitter: then it must dominate the delegation
+				if _, _, byp := f.Graph().ReachesAvoiding(f.Graph().Entry(), nodeCalls(f.Info(), "control.canonicalizePrefixes"), func(n ast.Node) bool {
+					r := false
+					ownCalls(n, func(cl *ast.CallExpr, _ bool) {
+						if cl == hcall {
+							r = true
+						}
+					})
+					return r
+				}); !byp && len(f.FindCalls(core.ParseRefs("control.canonicalizePrefixes"))) > 0 {
+					canonInCaller = true
+				}
+				f = helper
+			}
+		}
 		info := f.Info()
 		g := f.Graph()
 		reuse := func(n ast.Node) bool {
 			as, ok := n.(*ast.AssignStmt)
-			return ok && len(as.Rhs) == 1 && strings.HasSuffix(core.ExprStr(as.Rhs[0]), ".index") && core.FieldOf(info, as.Rhs[0]) == "lpmDedupEntry.index"
+			if ok && len(as.Rhs) == 1 && strings.HasSuffix(core.ExprStr(as.Rhs[0]), ".index") && core.FieldOf(info, as.Rhs[0]) == "lpmDedupEntry.index" {
+				return true
+			}
+			// in a helper the index may be returned directly
+			if rs, isR := n.(*ast.ReturnStmt); isR && f != emitter {
+				for _, r := range rs.Results {
+					if core.FieldOf(info, r) == "lpmDedupEntry.index" {
+						return true
+					}
+				}
+			}
+			return false
 		}
 		pts := g.Find(reuse)
 		okAll := len(pts) >= 1
@@ -234,7 +274,7 @@ func c12Share(c *Ctx) {
 			for _, gd := range g.Guards(p) {
 				if call, ok := gd.Cond.(*ast.CallExpr); ok && gd.Polarity {
 					if cal := core.Callee(info, call); cal != nil && cal.Name() == "prefixesEqual" && len(call.Args) == 2 &&
-						core.FieldOf(info, call.Args[0]) == "lpmDedupEntry.prefixes" && core.ExprStr(call.Args[1]) == "values" {
+						core.FieldOf(info, call.Args[0]) == "lpmDedupEntry.prefixes" && (core.ExprStr(call.Args[1]) == "values" || isParamExpr(f, info, call.Args[1])) {
 						guarded = true
 					}
 				}
@@ -244,7 +284,12 @@ func c12Share(c *Ctx) {
 			}
 		}
 		c.R.Checkf(rule, "reuse-only-when-equal@"+nm, c.pos(f.Pos()), okAll, "%s reuses an existing LPM set index only on the true edge of prefixesEqual(entry.prefixes, values) (%d reuse site(s)); equal hash or equal length alone may hide two different sets behind one index", nm, len(pts))
-		c.dominated(rule, "canonicalize-before-hash@"+nm, f, nodeCalls(info, "control.hashLpmSet"), nodeCalls(info, "control.canonicalizePrefixes"), "hashLpmSet", "canonicalizePrefixes")
+		if canonInCaller {
+			c.R.Checkf(rule, "canonicalize-before-hash@"+nm, c.pos(emitter.Pos()), true, "canonicalizePrefixes dominates the delegation to %s, which hashes the set", f.Name)
+		} else {
+			c.dominated(rule, "canonicalize-before-hash@"+nm, f, nodeCalls(info, "control.hashLpmSet"), nodeCalls(info, "control.canonicalizePrefixes"), "hashLpmSet", "canonicalizePrefixes")
+		}
+		f = emitter
 		// every path that does not reuse appends a new set and records it under the hash
 		src := core.ExprStr2(f.Body)
 		_ = src
@@ -439,4 +484,14 @@ func c12Err(c *Ctx) {
 		}
 	}
 	c.R.Floor(rule+"/sites", n, 2)
+}
+
+
+func isParamExpr(f *core.Func, info *types.Info, e ast.Expr) bool {
+	id, ok := ast.Unparen(e).(*ast.Ident)
+	if !ok {
+		return false
+	}
+	_, isP := paramIndex(f, info.ObjectOf(id))
+	return isP
 }
